@@ -136,6 +136,25 @@ def main(tier, seed):
         assumptions=["message vocabulary pinned from the documented strings; an unknown text is counted, not judged",
                      "in mode 6531 host-name conditions are evaluated on the A-label string libidn2 produced"],
         extra_jobs=extra_jobs, allow_on=mdl.default_allow)
+    # diagnostics along short call sequences on one object (generator and trace monitor of C13): an accepted address right after a
+    # rejected one under several allow_tld values (incl. -1) reports "no error"; a rejected eav_setup right after an IDN failure reports
+    # the set-up's condition, not the earlier message
+    from . import c13
+    from .. import histmon as HM
+    hexe = cx.exe("asan-hist", driver=("drv/hist.c",))
+    P = HM.POOL7
+    dprogs = []
+    for m in range(4):
+        for mask in ("ffffffff", "7ff", "d", "7fffffff", "fffff7ff"):
+            for i in range(len(P)):
+                for j in (0, 1, 3):
+                    if i != j:
+                        dprogs.append(["r%d" % m, "s", "t1", "a" + mask, "e%d" % i, "e%d" % j, "m", "r99", "s", "m", "r%d" % m, "s", "e%d" % j, "m"])
+        for i in range(len(P)):
+            dprogs.append(["r%d" % m, "s", "e%d" % i, "r77", "s", "m", "m"])
+    part = c13.w_hist(hexe, P, dprogs, False, "diagnostics-history")
+    rep.merge({"counters": {"history." + k: v for k, v in part["counters"].items()},
+               "viol": [("history/" + v[0],) + tuple(v[1:]) for v in part["viol"]], "samples": [], "distinct": 0})
     c = rep.counters
     seen = sorted(k[5:] for k in c if k.startswith("code.EEAV_"))
     allc = sorted(mdl.eeav)
